@@ -21,10 +21,25 @@ type c01Case struct {
 	Nil     bool   `json:"nil_param"`
 	Skew    uint64 `json:"skew,omitempty"` // fields HOTP generation does not use: must not matter
 	Period  uint64 `json:"period,omitempty"`
+	AppDef  int    `json:"application_assigned_defaults,omitempty"` // k > 0: the exported defaults hold variant k while the call runs
 }
 
 // hotpE2E evaluates one end-to-end case; key is the decoded key the reference uses.
+// c01Defaults: what an application may have assigned to the exported defaults (HOTP default, TOTP default).
+var c01Defaults = [][2]otp.Param{
+	{{Digits: 8, Algorithm: otp.SHA256}, {Digits: 7, Algorithm: otp.SHA512, Period: 60, Skew: 3}},
+	{{Digits: 10, Algorithm: otp.SHA512, Skew: 4}, {Digits: 6, Algorithm: otp.SHA1, Period: 30}},
+	{{Digits: 6, Algorithm: otp.SHA1}, {Digits: 9, Algorithm: otp.SHA256, Period: 1}},
+}
+
 func hotpE2E(c c01Case, key []byte) (obs, bad string) {
+	if c.AppDef > 0 {
+		// a nil Param means the HOTP default as the application has set it - not the TOTP default, not the stock values
+		sh, st := *otp.DefaultHOTPParam, *otp.DefaultTOTPParam
+		v := c01Defaults[(c.AppDef-1)%len(c01Defaults)]
+		*otp.DefaultHOTPParam, *otp.DefaultTOTPParam = v[0], v[1]
+		defer func() { *otp.DefaultHOTPParam, *otp.DefaultTOTPParam = sh, st }()
+	}
 	var code string
 	var err error
 	p := try(func() {
@@ -41,6 +56,10 @@ func hotpE2E(c c01Case, key []byte) (obs, bad string) {
 	d, a := c.Digits, c.Algo
 	if c.Nil {
 		d, a = 6, 0
+		if c.AppDef > 0 {
+			v := c01Defaults[(c.AppDef-1)%len(c01Defaults)][0]
+			d, a = int(v.Digits), int(v.Algorithm)
+		}
 	}
 	if !ref.HOTPSupported(d, a) {
 		if err == nil || code != "" {
@@ -196,9 +215,9 @@ func c01(r *ev.Run) {
 		var cs []c01Case
 		for _, ctr := range []uint64{0, 1, 1 << 32, ^uint64(0)} {
 			for a := 0; a < 3; a++ {
-				cs = append(cs, c01Case{sp, ctr, 6 + 2*a, a, false, 0, 0})
+				cs = append(cs, c01Case{sp, ctr, 6 + 2*a, a, false, 0, 0, 0})
 			}
-			cs = append(cs, c01Case{sp, ctr, 0, 0, true, 0, 0})
+			cs = append(cs, c01Case{sp, ctr, 0, 0, true, 0, 0, 0})
 		}
 		// the Param fields generation does not use (window, period) take every kind of value
 		for _, sk := range []uint64{1, 2, 10, 11, 255, 1 << 31, 1<<64 - 1} {
@@ -206,10 +225,16 @@ func c01(r *ev.Run) {
 				cs = append(cs, c01Case{Secret: sp, Counter: sk, Digits: 6 + int(sk%5), Algo: int(sk % 3), Skew: sk, Period: per})
 			}
 		}
+		// the exported defaults as an application may have assigned them: nil Param follows the HOTP default, explicit ones do not
+		for v := 1; v <= len(c01Defaults); v++ {
+			for _, ctr := range []uint64{0, 1, 1 << 32} {
+				cs = append(cs, c01Case{Secret: sp, Counter: ctr, Nil: true, AppDef: v}, c01Case{Secret: sp, Counter: ctr, Digits: 6 + v, Algo: v % 3, AppDef: v})
+			}
+		}
 		afterWarmups(r, "e2e-after-other-operations", cs, func(c c01Case) (string, string) { return hotpE2E(c, k) })
 	}
 	volume(r, "e2e-volume", 1100, func(k int) c01Case {
-		return c01Case{ref.B32Encode([]byte(fmt.Sprintf("volume-key-%04d-0123456789abcdefghij", k))[:10+(k*7)%27]), uint64(k) * 0x100000001, 6 + 2*(k%3), k % 3, k%7 == 0, 0, 0}
+		return c01Case{ref.B32Encode([]byte(fmt.Sprintf("volume-key-%04d-0123456789abcdefghij", k))[:10+(k*7)%27]), uint64(k) * 0x100000001, 6 + 2*(k%3), k % 3, k%7 == 0, 0, 0, 0}
 	}, func(c c01Case) (string, string) { _, key := ref.B32Classify(c.Secret); return hotpE2E(c, key) })
 	if ReplayOnly {
 		return
@@ -341,7 +366,7 @@ func c01(r *ev.Run) {
 				}
 				for a := 0; a < 3; a++ {
 					for d := 1; d <= 10; d++ {
-						c := c01Case{sp, ctr, d, a, false, 0, 0}
+						c := c01Case{sp, ctr, d, a, false, 0, 0, 0}
 						obs, bad := hotpE2E(c, s.key)
 						local++
 						if bad != "" {
@@ -352,7 +377,7 @@ func c01(r *ev.Run) {
 						}
 					}
 				}
-				c := c01Case{sp, ctr, 0, 0, true, 0, 0}
+				c := c01Case{sp, ctr, 0, 0, true, 0, 0, 0}
 				obs, bad := hotpE2E(c, s.key)
 				local++
 				if bad != "" {
@@ -377,7 +402,7 @@ func c01(r *ev.Run) {
 					if !r.Thorough() && (a+d/4)%2 == 1 && c1 != 1<<40 {
 						continue
 					}
-					cs := []c01Case{{seqKey.spell[0], c1, d, a, false, 0, 0}, {seqKey.spell[0], c2, 16 - d, (a + 1) % 3, false, 0, 0}, {seqKey.spell[0], c2, d, a, d == 6 && a == 0, 0, 0}}
+					cs := []c01Case{{seqKey.spell[0], c1, d, a, false, 0, 0, 0}, {seqKey.spell[0], c2, 16 - d, (a + 1) % 3, false, 0, 0, 0}, {seqKey.spell[0], c2, d, a, d == 6 && a == 0, 0, 0, 0}}
 					obs := ""
 					emptySyncPools() // every sequence starts from empty pools, so a failure replays
 					for i, c := range cs {
@@ -410,7 +435,7 @@ func c01(r *ev.Run) {
 					if ref.HOTPSupported(d, a) {
 						continue
 					}
-					c := c01Case{s.spell[0], ctr, d, a, false, 0, 0}
+					c := c01Case{s.spell[0], ctr, d, a, false, 0, 0, 0}
 					obs, bad := hotpE2E(c, s.key)
 					local++
 					if bad != "" {
@@ -426,8 +451,8 @@ func c01(r *ev.Run) {
 	})
 	r.Set("l3_supported_cases", l3n)
 	r.Set("l3_unsupported_cases", un)
-	r.Sample(map[string]any{"layer": "e2e", "case": c01Case{secs[42].spell[0], 1 << 63, 10, 2, false, 0, 0}, "ref": ref.HOTP(secs[42].key, 1<<63, 10, 2)})
-	r.Sample(map[string]any{"layer": "e2e-unsupported", "case": c01Case{secs[0].spell[0], 0, 11, 0, false, 0, 0}, "want": "(\"\", error)"})
+	r.Sample(map[string]any{"layer": "e2e", "case": c01Case{secs[42].spell[0], 1 << 63, 10, 2, false, 0, 0, 0}, "ref": ref.HOTP(secs[42].key, 1<<63, 10, 2)})
+	r.Sample(map[string]any{"layer": "e2e-unsupported", "case": c01Case{secs[0].spell[0], 0, 11, 0, false, 0, 0, 0}, "want": "(\"\", error)"})
 	r.Set("alphabet", map[string]any{"secret_lengths": secretLens, "secret_contents": "00.., FF.., ramp, seed filler", "spellings": "unpadded, padded, lower, mixed+whitespace", "counters": counterAlphabet, "digits": "0..255", "hash": "0..255", "windows_quick": len(ws)})
 	r.Rule("L1: every window value of the declared set (thorough: all 2^32) x digits 1..10 x (sum length, offset) through the real truncate/format stage vs decimal-odometer / Sprintf reference; L2: same values injected as HMAC output into the real GenerateHOTP; L3: full product secrets x spellings x counters x digits x hash through GenerateHOTP vs an independent RFC 4226 implementation, plus all 256x256 (digits,hash) pairs for the error clause. distinct = distinct output strings observed (L1 at offset 3, L3 at 10 digits)")
 	r.Assume("crypto/hmac, crypto/sha1, sha256, sha512 of the Go standard library are correct (shared by reference and implementation)")
